@@ -7,6 +7,7 @@ here=os.path.join(os.path.dirname(os.path.abspath(__file__)),"..")
 props={json.loads(l)['id']:json.loads(l) for l in open(os.path.join(here,'properties.jsonl'))}
 taken={}
 for d in sorted(glob.glob(os.path.join(here,'seeded/*/'))):
+    if not os.path.exists(d+'meta.json'): continue
     m=json.load(open(d+'meta.json')); pid=m.get('breaks_property') or m.get('property')
     taken.setdefault(pid,[]).append(m.get('what','')[:260])
 for pid in ids:
@@ -36,7 +37,7 @@ Deliverables, written to {out}/ (create it):
   - patch.diff : `git -C {wt} diff` of your change (source only; it must apply cleanly to a clean checkout with `git apply`)
   - demo.py    : a small self-contained program (runs in under 2 minutes, uses only the public behaviour of the package, no pytest needed) that exits 0 on the unmodified tree and exits non-zero (assert / sys.exit(1)) with your patch applied. It is run as: cd /tmp && PYTHONPATH=<tree> /venv/bin/python demo.py . Keep it quiet; write any files under a tempfile.TemporaryDirectory.
   - notes.md   : what the change is, why it breaks the property, exactly what is needed for it to manifest, and the tail of your test-suite run.
-Verify both directions of demo.py yourself (git -C {wt} stash / stash pop, or git apply -R). If you notice that the UNMODIFIED tree already violates the property for some input, say so in notes.md under a heading 'Observed on the unmodified tree' with a minimal reproducer - but still deliver a change of your own.
+Verify both directions of demo.py yourself (with `git -C {wt} apply -R {out}/patch.diff` and `git -C {wt} apply {out}/patch.diff`; do NOT use git stash: the stash is shared between all worktrees of the repository and other people are working in sibling worktrees). If you notice that the UNMODIFIED tree already violates the property for some input, say so in notes.md under a heading 'Observed on the unmodified tree' with a minimal reproducer - but still deliver a change of your own.
 
 Practical notes: every shell command prints a harmless first line 'WARNING conda...'. Meshes whose points are exactly cocircular (perfectly symmetric boxes at some edge lengths) can raise 'Malformed Voronoi cell' - use slightly asymmetric geometries in the demo. A ~100-site mesh and ~10-50 steps keep runs under a second; the first screened run compiles a numba kernel (~5 s). Several post-processing helpers are broken in this environment for unrelated reasons (np.trapz / 2-D np.cross removed in numpy 2: polygon_fluxoid, current_through_path; Polygon.buffer) - do not rely on them. The machine is shared with other jobs: do not use more than 3 pytest workers, and run the full suite at most twice. Leave the worktree in place with your change applied when you finish; finish with a 5-line summary."""
     open(f"{root}/{pid}.prompt","w").write(prompt)
